@@ -25,10 +25,16 @@ def one_case(col: Collector, rng, index: int, prop: str, max_tasks: int, emphasi
         reorder = rng.random() < 0.15
     # mixed-accelerator class: every host has a gpu worker next to cpu workers and about half of the tasks need a gpu, so that
     # one scheduling round assigns gpu and cpu consumers of the same remote dataset to one host (two assignment passes)
-    gpu_mix = rng.random() < 0.2
+    # wide class: at least 16 workers idle and at least 16 tasks computable in one scheduling round (a whole assignment pass
+    # of that size is otherwise never seen: 4 hosts x 4 workers at most)
+    wide = rng.random() < 0.03
+    if wide:
+        shape = rng.choice(["wide", "wide", "diamond"])
+        max_tasks = max(max_tasks, 48)
+    gpu_mix = (not wide) and rng.random() < 0.2
     if gpu_mix and shape is None:
         shape = rng.choice(["diamond", "diamond", "wide", "layered", "triangular"])
-    js = gen_jobspec(rng, max_tasks=rng.choice([4, 8, max_tasks]), shape=shape, allow_none=allow_none)
+    js = gen_jobspec(rng, max_tasks=max_tasks if wide else rng.choice([4, 8, max_tasks]), shape=shape, allow_none=allow_none)
     if gpu_mix:
         for t in js["tasks"].values():
             t["needs_gpu"] = rng.random() < 0.45
@@ -44,6 +50,9 @@ def one_case(col: Collector, rng, index: int, prop: str, max_tasks: int, emphasi
     if gpu_mix:
         env = {f"h{h}": [("w0", 1), ("w1", 0)] + [(f"w{2 + i}", rng.choice([0, 1])) for i in range(rng.randint(0, 2))] for h in range(rng.randint(2, 3))}
         col.count("runs_mixed_gpu_class")
+    if wide:
+        env = {f"h{h}": [(f"w{i}", 1 if i == 0 else 0) for i in range(rng.randint(6, 8))] for h in range(rng.randint(3, 4))}
+        col.count("runs_wide_class")
     policy = rng.choice(sc.POLICIES)
     out = sc.run_case(js, env, rng, policy, reorder=reorder)
     b = out["bridge"]
